@@ -28,3 +28,22 @@ Proof.
   rewrite forallb_forall in C. apply Forall_forall. intros p Hp. specialize (C p Hp). unfold code8 in C.
   apply andb_true_iff in C. destruct C as [_ C]. cbn. lia.
 Qed.
+
+(* decompile . compile . decompile = decompile: a format 0 subtable read from any accepted bytes recompiles (when it recompiles)
+   to something that reads back the same *)
+Theorem cmap0_recompile_stable data language m :
+  cmap0_decompile data = Ok (language, m) ->
+  match cmap0_compile language m with
+  | Ok bytes => cmap0_decompile bytes = Ok (language, m)
+  | Err _ => True
+  end.
+Proof.
+  intros H. unfold cmap0_decompile in H.
+  destruct (take_be 2 data) as [[v0 d1]|]; [|discriminate].
+  destruct (take_be 2 d1) as [[len d2]|]; [|discriminate].
+  destruct (take_be 2 d2) as [[lang d3]|]; [|discriminate].
+  destruct (negb (Z.of_nat (length data) =? len)); [discriminate|].
+  destruct (negb (len =? 262)); [discriminate|].
+  inversion H; subst language m. clear H.
+  apply cmap0_roundtrip; [apply zip_from_sorted | apply zip_from_gids].
+Qed.
